@@ -13,11 +13,14 @@ _CITE = re.compile(r"\[([^\[\]\s:]+\.fcp):(-?\d+)\]")
 _GUTTER = re.compile(r"^\s*(-?\d+) \|", re.M)
 
 
-def observe(text, cwd=None):
-    """one get_fcp_from_string call -> event fields"""
+def observe(text, cwd=None, logger=None):
+    """one get_fcp_from_string call -> event fields.  logger: a Logger shared by a whole session of calls (the sources
+    judged are then the CURRENT text, whatever the logger remembers from earlier calls)"""
     from fcp.parser import get_fcp_from_string
     from fcp.error import Logger
-    logger = Logger({})
+    session = logger is not None
+    if logger is None:
+        logger = Logger({})
     ev = {"outcome": "ok", "rendered": 0, "citations": [], "sources": [], "detail": ""}
     try:
         r = pycodec.with_timeout(20, get_fcp_from_string, text, logger)
@@ -48,6 +51,8 @@ def observe(text, cwd=None):
     except Exception as e:
         ev["detail"] = "render raised %s: %s" % (type(e).__name__, str(e)[:200])
     ev["sources"] = [{"name": n, "lines": len(src.split("\n"))} for n, src in logger.sources.items()]
+    if session:
+        ev["sources"] = [{"name": "main.fcp", "lines": len(text.split("\n"))}] + [x for x in ev["sources"] if x["name"] != "main.fcp"]
     mx = max([s["lines"] for s in ev["sources"]], default=0)
     # a gutter line number belongs to the node cited just before it; it must at least exist in some source
     for g in ev.pop("gutters", []):
@@ -124,8 +129,18 @@ def run_c11(tier, seed):
         f.write('version: "3"\n\nstruct Imported {\n    v @0: u8,\n}\n')
     os.chdir(chk.workdir)       # `mod` paths of in-memory sources resolve against the cwd
     try:
+        from fcp.error import Logger
+        shared = None
+        rng.shuffle(inputs)           # sessions then mix short and long texts
         for i, (kind, text) in enumerate(inputs):
-            ev = observe(text)
+            # every third input belongs to a session of 25 calls that share one Logger, as a long-lived tool would
+            if i % 3 == 0:
+                if shared is None or i % 75 == 0:
+                    shared = Logger({})
+                ev = observe(text, logger=shared)
+                kind = kind + "/shared-logger"
+            else:
+                ev = observe(text)
             ev["id"] = "p%d" % i
             detail = ev.pop("detail")
             events.append(ev)
